@@ -5,7 +5,7 @@
 #include <string.h>
 
 extern struct ec_backend_common backend_null, backend_flat_xor_hd, backend_isa_l_rs_vand,
-       backend_liberasurecode_rs_vand, backend_isa_l_rs_cauchy, backend_shss;
+       backend_liberasurecode_rs_vand, backend_isa_l_rs_cauchy, backend_shss, backend_jerasure_rs_vand, backend_jerasure_rs_cauchy, backend_libphazr;
 
 const char *be_name(int be)
 {
@@ -32,6 +32,9 @@ uint32_t lec_backend_version(int be)
     case EC_BACKEND_LIBERASURECODE_RS_VAND: return backend_liberasurecode_rs_vand.ec_backend_version;
     case EC_BACKEND_ISA_L_RS_CAUCHY: return backend_isa_l_rs_cauchy.ec_backend_version;
     case EC_BACKEND_SHSS: return backend_shss.ec_backend_version;
+    case EC_BACKEND_JERASURE_RS_VAND: return backend_jerasure_rs_vand.ec_backend_version;
+    case EC_BACKEND_JERASURE_RS_CAUCHY: return backend_jerasure_rs_cauchy.ec_backend_version;
+    case EC_BACKEND_LIBPHAZR: return backend_libphazr.ec_backend_version;
     }
     return 0;
 }
@@ -46,6 +49,13 @@ void cfg_key(const cfg_t *c, char *buf, size_t n)
     else snprintf(buf, n, "%s|k=%d,m=%d,hd=%d,ct=%d", be_name(c->be), c->k, c->m, c->hd, c->ct);
 }
 
+static void cfg_use_phazr(const cfg_t *c)
+{
+    int v = c->w > 0 ? c->w : 0, h = c->hd > 0 ? c->hd : 0;
+    if (__atomic_load_n(&ref_isal_word_bits, __ATOMIC_RELAXED) != v) __atomic_store_n(&ref_isal_word_bits, v, __ATOMIC_RELAXED);
+    if (__atomic_load_n(&ref_phazr_hd, __ATOMIC_RELAXED) != h) __atomic_store_n(&ref_phazr_hd, h, __ATOMIC_RELAXED);
+}
+
 void cfg_use(const cfg_t *c)
 {
     /* the size models follow the configuration being worked on */
@@ -55,7 +65,14 @@ void cfg_use(const cfg_t *c)
         int v = (c->w == 16 || c->w == 32) ? c->w : 0;
         if (__atomic_load_n(&ref_isal_word_bits, __ATOMIC_RELAXED) != v) __atomic_store_n(&ref_isal_word_bits, v, __ATOMIC_RELAXED);
     }
+    if (c->be == EC_BACKEND_LIBPHAZR) cfg_use_phazr(c);
+    if (c->be == EC_BACKEND_JERASURE_RS_VAND || c->be == EC_BACKEND_JERASURE_RS_CAUCHY) {
+        int v = c->w > 0 ? c->w : 0;
+        if (__atomic_load_n(&ref_isal_word_bits, __ATOMIC_RELAXED) != v) __atomic_store_n(&ref_isal_word_bits, v, __ATOMIC_RELAXED);
+    }
 }
+
+int cfg_jer_w(const cfg_t *c) { return c->w > 0 ? c->w : c->be == EC_BACKEND_JERASURE_RS_VAND ? 16 : 4; }
 
 int lec_create(const cfg_t *c)
 {
@@ -115,6 +132,31 @@ int cfgs_shss(cfg_t *out, int max)
     return n;
 }
 
+int cfgs_phazr(cfg_t *out, int max)
+{
+    /* the libphazr adapter on the verif-owned stand-in (phazr_ref/): per-fragment backend metadata of
+     * ceil(P/(w/8-hd))*(w/8)-P bytes and plain data placed at that offset before the backend encodes.  {k, m, hd, w} */
+    static const int sh[][4] = { {4, 2, 1, 0}, {10, 4, 1, 0}, {3, 3, 3, 0}, {1, 1, 0, 0}, {2, 5, 5, 64}, {6, 3, 1, 32}, {5, 2, 2, 64}, {4, 7, 7, 0} };
+    int n = 0;
+    if (!liberasurecode_backend_available(EC_BACKEND_LIBPHAZR)) return 0;
+    for (size_t i = 0; i < sizeof sh / sizeof sh[0] && n < max; i++) out[n++] = (cfg_t){ EC_BACKEND_LIBPHAZR, sh[i][0], sh[i][1], sh[i][2], sh[i][3], CHKSUM_CRC32 };
+    return n;
+}
+
+int cfgs_jer(cfg_t *out, int max)
+{
+    /* the two libJerasure adapters on the verif-owned stand-in (jer_ref/): word code over GF(2^8/16/32), bit-matrix code over
+     * GF(2^4/8) whose fragments are whole stretches of w packets of sizeof(long)*128 bytes */
+    static const int vd[][3] = { {4, 2, 0}, {10, 4, 16}, {3, 3, 8}, {2, 1, 32}, {1, 2, 8}, {6, 5, 0} };
+    static const int cy[][3] = { {4, 2, 0}, {3, 2, 8}, {5, 3, 4}, {1, 1, 0}, {2, 3, 4} };
+    int n = 0;
+    if (liberasurecode_backend_available(EC_BACKEND_JERASURE_RS_VAND))
+        for (size_t i = 0; i < sizeof vd / sizeof vd[0] && n < max; i++) out[n++] = (cfg_t){ EC_BACKEND_JERASURE_RS_VAND, vd[i][0], vd[i][1], vd[i][1], vd[i][2], CHKSUM_CRC32 };
+    if (liberasurecode_backend_available(EC_BACKEND_JERASURE_RS_CAUCHY))
+        for (size_t i = 0; i < sizeof cy / sizeof cy[0] && n < max; i++) out[n++] = (cfg_t){ EC_BACKEND_JERASURE_RS_CAUCHY, cy[i][0], cy[i][1], cy[i][1], cy[i][2], CHKSUM_CRC32 };
+    return n;
+}
+
 int cfgs_xor(cfg_t *out, int max)
 {
     int n = 0;
@@ -135,19 +177,21 @@ void code_init(code_t *cd, const cfg_t *c)
     switch (c->be) {
     case EC_BACKEND_LIBERASURECODE_RS_VAND: rs_generator(c->k, c->m, cd->g16); break;
     case EC_BACKEND_ISA_L_RS_VAND: isal_vand_generator(c->k, c->m, cd->g8); break;
-    case EC_BACKEND_ISA_L_RS_CAUCHY: case EC_BACKEND_SHSS: isal_cauchy_generator(c->k, c->m, cd->g8); break;   /* the stand-in libshss is the same Cauchy code */
+    case EC_BACKEND_ISA_L_RS_CAUCHY: case EC_BACKEND_SHSS: case EC_BACKEND_LIBPHAZR: isal_cauchy_generator(c->k, c->m, cd->g8); break;   /* the stand-in libshss is the same Cauchy code */
     case EC_BACKEND_FLAT_XOR_HD:
         cd->xt = xor_find(c->k, c->m, c->hd);
         if (cd->xt) xor_rows(cd->xt, cd->x);
         break;
+    case EC_BACKEND_JERASURE_RS_VAND: case EC_BACKEND_JERASURE_RS_CAUCHY: cd->mds = 1; break;
     }
 }
 
 int code_rank(const code_t *cd, const int *rows, int nrows)
 {
+    if (cd->mds) { uint64_t seen = 0; int d = 0; for (int i = 0; i < nrows; i++) if (!(seen >> rows[i] & 1)) { seen |= 1ull << rows[i]; d++; } return d < cd->k ? d : cd->k; }
     switch (cd->be) {
     case EC_BACKEND_LIBERASURECODE_RS_VAND: return gf16_rank(cd->g16, cd->k, rows, nrows);
-    case EC_BACKEND_ISA_L_RS_VAND: case EC_BACKEND_ISA_L_RS_CAUCHY: case EC_BACKEND_SHSS: return gf8_rank(cd->g8, cd->k, rows, nrows);
+    case EC_BACKEND_ISA_L_RS_VAND: case EC_BACKEND_ISA_L_RS_CAUCHY: case EC_BACKEND_SHSS: case EC_BACKEND_LIBPHAZR: return gf8_rank(cd->g8, cd->k, rows, nrows);
     case EC_BACKEND_FLAT_XOR_HD: return gf2_rank(cd->x, rows, nrows);
     }
     return 0;
@@ -200,7 +244,8 @@ void stripe_free(stripe_t *s)
 /* ------------- expected fragments ------------- */
 uint64_t model_fragment_len(const cfg_t *c, uint64_t len)
 {
-    return ref_payload_size(c->be, c->k, len) + (uint64_t)ref_backend_metadata_bytes(c->be) + REF_HDR_LEN;
+    uint64_t P = ref_payload_size(c->be, c->k, len);
+    return P + ref_backend_metadata_bytes(c->be, P) + REF_HDR_LEN;
 }
 
 void model_fragment_header(const cfg_t *c, uint64_t len, int idx, const uint8_t *payload, int legacy, uint8_t out[80])
@@ -208,7 +253,7 @@ void model_fragment_header(const cfg_t *c, uint64_t len, int idx, const uint8_t 
     ref_hdr_t h;
     memset(&h, 0, sizeof h);
     uint64_t P = ref_payload_size(c->be, c->k, len);
-    h.idx = (uint32_t)idx; h.size = (uint32_t)P; h.bms = (uint32_t)ref_backend_metadata_bytes(c->be); h.orig = len;
+    h.idx = (uint32_t)idx; h.size = (uint32_t)P; h.bms = (uint32_t)ref_backend_metadata_bytes(c->be, P); h.orig = len;
     h.ct = (uint8_t)c->ct;
     if (c->ct == CHKSUM_CRC32) h.chksum[0] = legacy ? crc_legacy(payload, P) : crc_std(payload, P);
     h.mismatch = 0; h.beid = (uint8_t)c->be; h.bever = lec_backend_version(c->be);
@@ -229,22 +274,32 @@ void model_stripe(const cfg_t *c, const uint8_t *data, uint64_t len, int legacy,
         dp[i] = pl;
     }
     code_t cd;
-    if (c->be == EC_BACKEND_ISA_L_RS_VAND || c->be == EC_BACKEND_ISA_L_RS_CAUCHY || c->be == EC_BACKEND_FLAT_XOR_HD || c->be == EC_BACKEND_SHSS)
+    if (c->be == EC_BACKEND_ISA_L_RS_VAND || c->be == EC_BACKEND_ISA_L_RS_CAUCHY || c->be == EC_BACKEND_FLAT_XOR_HD || c->be == EC_BACKEND_SHSS || c->be == EC_BACKEND_LIBPHAZR)
         code_init(&cd, c);
     for (int j = 0; j < m; j++) {
         uint8_t *pl = out[k + j] + REF_HDR_LEN;
         switch (c->be) {
         case EC_BACKEND_LIBERASURECODE_RS_VAND: rs_model_parity(k, m, dp, P, k + j, pl); break;
-        case EC_BACKEND_ISA_L_RS_VAND: case EC_BACKEND_ISA_L_RS_CAUCHY: case EC_BACKEND_SHSS: gf8_model_parity(cd.g8, k, dp, P, k + j, pl); break;
+        case EC_BACKEND_ISA_L_RS_VAND: case EC_BACKEND_ISA_L_RS_CAUCHY: case EC_BACKEND_SHSS: case EC_BACKEND_LIBPHAZR: gf8_model_parity(cd.g8, k, dp, P, k + j, pl); break;
         case EC_BACKEND_FLAT_XOR_HD: xor_model_parity(cd.xt, dp, P, j, pl); break;
+        case EC_BACKEND_JERASURE_RS_VAND: jer_vand_model_parity(k, m, cfg_jer_w(c), dp, P, k + j, pl); break;
+        case EC_BACKEND_JERASURE_RS_CAUCHY: jer_cauchy_model_parity(k, m, cfg_jer_w(c), 1024, dp, P, k + j, pl); break;
         default: memset(pl, 0, P);
         }
     }
     /* backend-owned trailer behind the payload (stand-in libshss: 0x5A ^ 7*index ^ byte number) */
     for (int i = 0; i < k + m && c->be == EC_BACKEND_SHSS; i++)
         for (int b = 0; b < 32; b++) out[i][REF_HDR_LEN + P + (uint64_t)b] = (uint8_t)(0x5A ^ (i * 7) ^ b);
+    /* stand-in libphazr: tail of ref_backend_metadata_bytes(P) bytes, 0xC3 ^ 5*index ^ 3*byte number */
+    if (c->be == EC_BACKEND_LIBPHAZR) { uint64_t t = ref_backend_metadata_bytes(c->be, P); for (int i = 0; i < k + m; i++) for (uint64_t b = 0; b < t; b++) out[i][REF_HDR_LEN + P + b] = (uint8_t)(0xC3 ^ (i * 5) ^ (int)(b * 3)); }
     for (int i = 0; i < k + m; i++)
         model_fragment_header(c, len, i, out[i] + REF_HDR_LEN, legacy, out[i]);
+}
+
+uint64_t ctx_payload_size(const ctx_t *x, uint64_t flen)
+{
+    for (int i = 0; i < x->nstr; i++) if (x->st[i].flen == flen) return ref_payload_size(x->c.be, x->c.k, x->st[i].len);
+    return flen - 80 - ref_backend_metadata_bytes(x->c.be, 0);
 }
 
 /* ------------- presentations ------------- */
@@ -286,13 +341,37 @@ void pres_free(pres_t *p)
 /* ------------- data ------------- */
 const char *data_kind_name(int kind)
 {
-    static const char *n[] = { "random", "zero", "ff", "high", "boundary", "edge" };
+    static const char *n[] = { "random", "zero", "ff", "high", "boundary", "edge", "crc0" };
     return (kind >= 0 && kind < DATA_KINDS) ? n[kind] : "?";
+}
+
+/* choose the last four bytes of p[0..n) so that its CRC-32 (the variant the writer uses) becomes `target`: the CRC is affine
+ * in the message bits, so the 32 unknown bits solve a 32x32 system over GF(2) */
+extern int LEC_MODEL_LEGACY;
+static void force_crc(uint8_t *p, uint64_t n, uint32_t target)
+{
+    if (n < 4) return;
+    uint32_t (*crc)(const uint8_t *, size_t) = LEC_MODEL_LEGACY ? crc_legacy : crc_std;
+    uint8_t *t = p + n - 4; memset(t, 0, 4);
+    uint32_t c0 = crc(p, n), rhs = c0 ^ target, basis[32], bsel[32];
+    memset(basis, 0, sizeof basis); memset(bsel, 0, sizeof bsel);
+    for (int b = 0; b < 32; b++) {
+        t[b / 8] ^= (uint8_t)(1u << (b % 8)); uint32_t v = crc(p, n) ^ c0, sel = 1u << b; t[b / 8] ^= (uint8_t)(1u << (b % 8));
+        for (int bit = 31; bit >= 0 && v; bit--) { if (!(v >> bit & 1)) continue; if (!basis[bit]) { basis[bit] = v; bsel[bit] = sel; break; } v ^= basis[bit]; sel ^= bsel[bit]; }
+    }
+    uint32_t sol = 0;
+    for (int bit = 31; bit >= 0; bit--) if (rhs >> bit & 1) { if (!basis[bit]) return; rhs ^= basis[bit]; sol ^= bsel[bit]; }
+    for (int b = 0; b < 32; b++) if (sol >> b & 1) t[b / 8] ^= (uint8_t)(1u << (b % 8));
 }
 
 void data_fill(uint8_t *buf, uint64_t len, int kind, rng_t *r, int k, uint64_t payload)
 {
     switch (kind) {
+    case DATA_CRC0:
+        rng_fill(r, buf, len);
+        if (payload >= 4 && len >= payload) force_crc(buf, payload, 0);
+        if (payload >= 4 && len >= 2 * payload && k >= 2) force_crc(buf + payload, payload, 0xffffffffu);
+        break;
     case DATA_RANDOM: rng_fill(r, buf, len); break;
     case DATA_ZERO: memset(buf, 0, len); break;
     case DATA_FF: memset(buf, 0xff, len); break;
@@ -460,6 +539,7 @@ void ctx_close(ctx_t *x)
 int std_lengths(const cfg_t *c, uint64_t *lens, int *kinds, int max, int few)
 {
     rng_t r; rng_seed(&r, MO.seed, (uint64_t)(c->be * 1000003 + c->k * 1009 + c->m * 31 + c->hd));
+    cfg_use(c);
     uint64_t A = (uint64_t)c->k * (uint64_t)ref_word_bytes(c->be);
     uint64_t all[40];
     int n = lengths_for(A, MO.thorough, &r, all, 40);
@@ -468,12 +548,13 @@ int std_lengths(const cfg_t *c, uint64_t *lens, int *kinds, int max, int few)
         /* unaligned small, aligned, one random */
         uint64_t pick[4] = { A + 1, 16 * A, all[n - 1], 0 };
         int np = few < 4 ? few : 4;
-        for (int i = 0; i < np && out < max; i++) { lens[out] = pick[i]; kinds[out] = i == 1 ? DATA_HIGH : DATA_RANDOM; out++; }
+        for (int i = 0; i < np && out < max; i++) { lens[out] = pick[i]; kinds[out] = i == 1 ? DATA_HIGH : i == 2 ? DATA_CRC0 : DATA_RANDOM; out++; }
         return out;
     }
     for (int i = 0; i < n && out < max; i++) {
         lens[out] = all[i];
         kinds[out] = (i % 4 == 3) ? 1 + (int)rng_below(&r, DATA_KINDS - 1) : DATA_RANDOM;
+        if (i == 6) kinds[out] = DATA_CRC0;          /* one stripe per configuration whose first fragments carry the checksum values 0 and ffffffff */
         out++;
     }
     return out;
@@ -482,6 +563,7 @@ int std_lengths(const cfg_t *c, uint64_t *lens, int *kinds, int max, int few)
 
 int payload_sweep_lengths(const cfg_t *c, uint64_t *lens, int *kinds, int max)
 {
+    cfg_use(c);
     uint64_t W = (uint64_t)ref_word_bytes(c->be), k = (uint64_t)c->k;
     int n = 0;
     for (uint64_t P = W; P <= 32 + W && n < max; P += W) { lens[n] = k * P - (n % 3 == 1 && k * P > 1 ? 1 : 0); kinds[n] = n % 4 == 3 ? DATA_HIGH : n % 4 == 1 ? DATA_EDGE : DATA_RANDOM; n++; }
